@@ -14,7 +14,7 @@ RULE = ('case = one call of a query method (len, in, count, find, rfind, index, 
         'changed / True); distinct = distinct (method, text, arguments).')
 ASSUMPTIONS = ['CPython 3.12 str is the reference', 'calls where str itself raises are left to C09']
 MIN_EVAL = 1000
-CASES = {'quick': 120, 'thorough': 2500}
+CASES = {'quick': 1200, 'thorough': 15000}
 WEIGHTS = {'query': 10, 'strip': 4, 'split': 5, 'splitlines': 2, 'partition': 4, 'replace': 5, 'expandtabs': 1.5,
            'removefix': 3, 'case': 4, 'pad': 5, 'contains': 2, 'apply': 4, 'add': 2, 'getitem': 1}
 
